@@ -777,6 +777,14 @@ struct SysOpt
   static constexpr size_t unbounded_queue_max_capacity = 256;
   static constexpr quill::HugePagesPolicy huge_pages_policy = quill::HugePagesPolicy::Never;
 };
+struct SysOptBB
+{
+  static constexpr quill::QueueType queue_type = quill::QueueType::BoundedBlocking;
+  static constexpr size_t initial_queue_capacity = 128;
+  static constexpr uint32_t blocking_queue_retry_interval_ns = 800;
+  static constexpr size_t unbounded_queue_max_capacity = 128;
+  static constexpr quill::HugePagesPolicy huge_pages_policy = quill::HugePagesPolicy::Never;
+};
 struct SysOptBD
 {
   static constexpr quill::QueueType queue_type = quill::QueueType::BoundedDropping;
@@ -789,11 +797,17 @@ static std::vector<std::string>* g_sys_recs = nullptr;
 static std::vector<std::string>* g_sys_notes = nullptr;
 struct SysSink : public quill::Sink
 {
+  explicit SysSink(int id) : _id(id) {}
+  ~SysSink() override
+  {
+    if (g_sys_recs) g_sys_recs->push_back("destroyed:" + std::to_string(_id));
+  }
+  int _id;
   void write_log(quill::MacroMetadata const*, uint64_t, std::string_view, std::string_view, std::string const&, std::string_view, quill::LogLevel,
                  std::string_view, std::string_view, std::vector<std::pair<std::string, std::string>> const*, std::string_view msg,
                  std::string_view) override
   {
-    g_sys_recs->push_back(std::string(msg));
+    g_sys_recs->push_back(std::to_string(_id) + ":" + std::string(msg));
   }
   void flush_sink() override {}
 };
@@ -833,7 +847,12 @@ struct SysHarness
   using LG = quill::LoggerImpl<SysOpt>;
   size_t refused{0}; // log calls that returned false (dropping queue)
   quill::detail::BackendWorker* bw{nullptr};
-  LG* lg{nullptr};
+  LG* lg_of[MAXT + 1]{};
+  int gen_of[MAXT + 1]{};                      // generation of the thread's logger (A for thread 1, B for thread 3)
+  std::vector<int> removed_of[MAXT + 1];       // generations whose removal was requested
+  std::vector<std::pair<int, std::string>> logged_via_of[MAXT + 1]; // (sink id, message) in issue order
+  static char const* name_of(int me) { return me == 1 ? "A" : "B"; }
+  static int sink_id(int me, int gen) { return me * 10 + gen; }
   // per virtual frontend thread (index = explorer thread id: 1 and 3)
   quill::detail::ScopedThreadContext* stc_of[MAXT + 1]{};
   bool registered_of[MAXT + 1]{};
@@ -870,7 +889,9 @@ struct SysHarness
     bo.transit_event_buffer_initial_capacity = 2;
     bo.check_printable_char = {};
     bw->_init(bo);
-    lg = F::create_or_get_logger("A", std::make_shared<SysSink>(), quill::PatternFormatterOptions{"%(message)"}, quill::ClockSourceType::System);
+    // thread 1 logs through logger A (which it may remove and re-create: generation g writes to sink 10 + g), thread 3 through B
+    lg_of[1] = F::create_or_get_logger("A", std::make_shared<SysSink>(sink_id(1, 0)), quill::PatternFormatterOptions{"%(message)"}, quill::ClockSourceType::System);
+    lg_of[3] = F::create_or_get_logger("B", std::make_shared<SysSink>(sink_id(3, 0)), quill::PatternFormatterOptions{"%(message)"}, quill::ClockSourceType::System);
   }
   void frontend(int me, std::vector<POp> const& ops)
   {
@@ -878,7 +899,7 @@ struct SysHarness
     for (auto const& o : ops)
     {
       if (W->abort_exec) return;
-      if (o.kind == 'r' || ((o.kind == 'l' || o.kind == 'f') && !registered_of[me]))
+      if (o.kind == 'r' || ((o.kind == 'l' || o.kind == 'f' || o.kind == 'B') && !registered_of[me]))
       {
         // what the first log call of a thread does (get_local_thread_context): construct the thread's scoped context
         stc_of[me] = new quill::detail::ScopedThreadContext(SysOpt::queue_type, SysOpt::initial_queue_capacity, SysOpt::unbounded_queue_max_capacity, SysOpt::huge_pages_policy);
@@ -886,14 +907,45 @@ struct SysHarness
         registered_of[me] = true;
       }
       if (W->abort_exec) return;
+      LG* lg = lg_of[me];
+      if ((o.kind == 'l' || o.kind == 'f' || o.kind == 'R' || o.kind == 'B') && !lg) continue; // the logger is gone: nothing to use
       if (o.kind == 'l')
       {
         bool const ok = lg->template log_statement<false, false>(quill::LogLevel::None, &md, me, static_cast<int>(o.n));
         if (W->abort_exec) return;
         if (ok)
+        {
           logged_of[me].push_back("m" + std::to_string(me) + "." + std::to_string(o.n));
+          logged_via_of[me].emplace_back(sink_id(me, gen_of[me]), logged_of[me].back());
+        }
         else
           ++refused;
+      }
+      else if (o.kind == 'R')
+      {
+        F::remove_logger(lg);
+        lg_of[me] = nullptr;
+        removed_of[me].push_back(gen_of[me]);
+      }
+      else if (o.kind == 'B')
+      {
+        if (o.n)
+          deep_remove(lg); // from a deeper frame: the completion flag lives at another address than last time
+        else
+          F::remove_logger_blocking(lg);
+        if (W->abort_exec) return;
+        lg_of[me] = nullptr;
+        removed_of[me].push_back(gen_of[me]);
+        // returns only after the removal has completed: the name is free, the sink (owned by the logger alone) is destroyed,
+        // and everything logged through it was written before
+        if (F::get_logger(name_of(me))) fail("removal-not-complete-at-return", "remove_logger_blocking returned but get_logger still finds the logger");
+        if (std::find(recs.begin(), recs.end(), "destroyed:" + std::to_string(sink_id(me, gen_of[me]))) == recs.end())
+          fail("removal-not-complete-at-return", "remove_logger_blocking returned but the logger's sink has not been destroyed");
+      }
+      else if (o.kind == 'c' && !lg_of[me] && !removed_of[me].empty())
+      {
+        ++gen_of[me];
+        lg_of[me] = F::create_or_get_logger(name_of(me), std::make_shared<SysSink>(sink_id(me, gen_of[me])), quill::PatternFormatterOptions{"%(message)"}, quill::ClockSourceType::System);
       }
       else if (o.kind == 'f')
       {
@@ -901,9 +953,9 @@ struct SysHarness
         if (W->abort_exec) return;
         // at this instant every statement this thread logged before is at the sink
         size_t got = 0;
-        std::string const pre = "m" + std::to_string(me) + ".";
+        std::string const pre = ":m" + std::to_string(me) + ".";
         for (auto const& r : recs)
-          if (r.rfind(pre, 0) == 0) ++got;
+          if (r.find(pre) != std::string::npos) ++got;
         if (got != logged_of[me].size())
           fail("flush-returned-before-statement-written", "flush_log() of thread " + std::to_string(me) + " returned with " + std::to_string(got) + " of its " +
                                                            std::to_string(logged_of[me].size()) + " earlier statements at the sink");
@@ -917,6 +969,14 @@ struct SysHarness
         registered_of[me] = false;
       }
     }
+  }
+  __attribute__((noinline)) static void deep_remove(LG* lg)
+  {
+    volatile char pad[384];
+    pad[0] = 1;
+    pad[383] = pad[0];
+    F::remove_logger_blocking(lg);
+    (void)pad;
   }
   void producer() { frontend(1, g_cfg.ops); }
   void producer2() { frontend(3, g_cfg.ops2); }
@@ -975,9 +1035,9 @@ struct SysHarness
     for (int me : {1, 3})
     {
       std::vector<std::string> got;
-      std::string const pre = "m" + std::to_string(me) + ".";
+      std::string const pre = ":m" + std::to_string(me) + ".";
       for (auto const& r : recs)
-        if (r.rfind(pre, 0) == 0) got.push_back(r);
+        if (r.find(pre) != std::string::npos) got.push_back(r.substr(r.find(':') + 1));
       if (got != logged_of[me])
       {
         std::string a, b;
@@ -986,6 +1046,36 @@ struct SysHarness
         fail("statement-lost-duplicated-or-reordered", "the sink received [" + a + "] from thread " + std::to_string(me) + " after the backend drained alone; the thread's completed log calls were [" + b + "]");
       }
       if (registered_of[me]) ++want;
+    }
+    // logger generations: each statement at the sink of the generation it was logged through; a sink is destroyed exactly once,
+    // after everything logged through its logger was written, and only if the logger's removal was requested
+    for (int me : {1, 3})
+    {
+      std::vector<std::pair<int, std::string>> at_sink;
+      std::string const pre = ":m" + std::to_string(me) + ".";
+      for (auto const& r : recs)
+        if (r.find(pre) != std::string::npos) at_sink.emplace_back(atoi(r.c_str()), r.substr(r.find(':') + 1));
+      if (at_sink != logged_via_of[me] && !W->violation)
+        fail("statement-at-wrong-sink", "statements of thread " + std::to_string(me) + " did not reach the sinks of the logger generations they were logged through");
+      for (int g = 0; g <= gen_of[me]; ++g)
+      {
+        int const sid = sink_id(me, g);
+        std::string const d = "destroyed:" + std::to_string(sid);
+        long const n = std::count(recs.begin(), recs.end(), d);
+        bool const removed = std::find(removed_of[me].begin(), removed_of[me].end(), g) != removed_of[me].end();
+        if (n != (removed ? 1 : 0))
+          fail(n > (removed ? 1 : 0) ? "sink-destroyed-while-referenced" : "sink-not-destroyed-after-removal",
+               "sink " + std::to_string(sid) + " destroyed " + std::to_string(n) + " time(s), removal of its logger " + (removed ? "was" : "was not") + " requested");
+        if (n)
+        {
+          size_t const pos = static_cast<size_t>(std::find(recs.begin(), recs.end(), d) - recs.begin());
+          for (size_t k = pos; k < recs.size(); ++k)
+            if (recs[k].rfind(std::to_string(sid) + ":", 0) == 0) fail("sink-used-after-destruction", "sink " + std::to_string(sid) + " received '" + recs[k] + "' after its destruction");
+        }
+      }
+      bool const want = lg_of[me] != nullptr;
+      if ((F::get_logger(name_of(me)) != nullptr) != want && !W->violation)
+        fail("logger-registry-wrong", std::string("after the drain get_logger(") + name_of(me) + ") " + (want ? "finds nothing although the logger exists" : "still finds a removed logger"));
     }
     size_t const ctxs = quill::detail::ThreadContextManager::instance()._thread_contexts.size();
 
@@ -1172,7 +1262,7 @@ static std::string cfg_string()
   if (g_cfg.mode == "bounded")
     return "mode=bounded itype=" + g_cfg.itype + " cap=" + std::to_string(g_cfg.cap) + " percent=" + std::to_string(g_cfg.percent) + " preset=" + std::to_string(g_cfg.preset) + " ops=" + ops;
   if (g_cfg.mode == "counter") return "mode=counter ops=" + ops;
-  if (g_cfg.mode == "sys" || g_cfg.mode == "sysbd")
+  if (g_cfg.mode.rfind("sys", 0) == 0)
   {
     std::string o2;
     for (auto const& o : g_cfg.ops2) o2 += (o2.empty() ? "" : ",") + std::string(1, o.kind) + std::to_string(o.n);
@@ -1365,6 +1455,7 @@ int main(int argc, char** argv)
 #ifdef VF_SYS
     if (g_cfg.mode == "sys") return explore<SysHarness<SysOpt>>(a);
     if (g_cfg.mode == "sysbd") return explore<SysHarness<SysOptBD>>(a);
+    if (g_cfg.mode == "sysbb") return explore<SysHarness<SysOptBB>>(a);
 #endif
     if (g_cfg.itype == "u8") return explore<BoundedHarness<quill::detail::BoundedSPSCQueueImpl<uint8_t>>>(a);
     if (g_cfg.itype == "u16") return explore<BoundedHarness<quill::detail::BoundedSPSCQueueImpl<uint16_t>>>(a);
